@@ -40,6 +40,13 @@ Fixpoint views (s : st) (ops : list op) : list (list mobs) :=
   | o :: r => let s' := fst (step s o) in view s' :: views s' r
   end.
 
+(** … of the machine whose createFunTokenFromCoin rewrites the denom ([Model.step_with]) *)
+Fixpoint views_with (cn : denom -> denom) (c : create_denoms) (s : st) (ops : list op) : list (list mobs) :=
+  match ops with
+  | [] => []
+  | o :: r => let s' := fst (step_with cn c s o) in view s' :: views_with cn c s' r
+  end.
+
 (** * boolean checker *)
 Fixpoint nodupb {A} (eqb : A -> A -> bool) (l : list A) : bool :=
   match l with
@@ -57,10 +64,18 @@ Definition P_obsb (r : list mobs) : bool :=
 
 Definition Pb (tr : list (list mobs)) : bool := forallb P_obsb tr.
 
-Lemma denom_eqb_eq a b : denom_eqb a b = true <-> a = b.
+Lemma dname_eqb_eq a b : dname_eqb a b = true <-> a = b.
 Proof.
   destruct a, b; simpl; split; intro H; try discriminate; try (apply Nat.eqb_eq in H; subst; reflexivity);
     inversion H; subst; apply Nat.eqb_refl.
+Qed.
+
+Lemma denom_eqb_eq a b : denom_eqb a b = true <-> a = b.
+Proof.
+  destruct a, b; simpl; split; intro H; try discriminate; try (apply Nat.eqb_eq in H; subst; reflexivity);
+    try (inversion H; subst; apply Nat.eqb_refl).
+  - apply andb_true_iff in H as [H1 H2]. apply dname_eqb_eq in H1. apply Nat.eqb_eq in H2. subst. reflexivity.
+  - inversion H; subst. apply andb_true_iff. split; [apply dname_eqb_eq; reflexivity | apply Nat.eqb_refl].
 Qed.
 
 Lemma nodupb_sound {A} (eqb : A -> A -> bool) (l : list A) :
@@ -90,4 +105,24 @@ Lemma Pb_sound tr : Pb tr = true -> P tr.
 Proof.
   unfold Pb, P. intro H. apply Forall_forall. intros r Hr.
   rewrite forallb_forall in H. apply P_obsb_sound. auto.
+Qed.
+
+(** the checker is also complete: a trace it refuses does violate the property (used for the [_refuted] witnesses) *)
+Lemma nodupb_complete {A} (eqb : A -> A -> bool) (l : list A) :
+  (forall a b, eqb a b = true <-> a = b) -> NoDup l -> nodupb eqb l = true.
+Proof.
+  intros He. induction l as [|x r IH]; simpl; intro H; [reflexivity|].
+  inversion H as [|? ? Hn Hr]; subst. apply andb_true_iff. split; [|auto].
+  apply negb_true_iff. destruct (existsb (eqb x) r) eqn:E; [|reflexivity].
+  apply existsb_exists in E as [y [Hy Exy]]. apply He in Exy. subst y. contradiction.
+Qed.
+
+Lemma Pb_complete tr : P tr -> Pb tr = true.
+Proof.
+  unfold P, Pb. intro H. apply forallb_forall. intros r Hr. rewrite Forall_forall in H.
+  destruct (H r Hr) as [[U1 U2] B]. unfold P_obsb. rewrite !andb_true_iff. split; [split|].
+  - apply nodupb_complete; [intros; apply Nat.eqb_eq | exact U1].
+  - apply nodupb_complete; [apply denom_eqb_eq | exact U2].
+  - apply forallb_forall. intros o Ho. rewrite Forall_forall in B. specialize (B o Ho).
+    unfold backed in B. unfold backedb. destruct (m_coin (mo_map o)); apply Z.leb_le; exact B.
 Qed.
